@@ -25,6 +25,9 @@ type Obligation struct {
 	// results
 	res Result
 	expectSat bool // reachability probe: must be sat
+	apps      []appRec
+	entry     *State
+	skolems   map[string]Value
 }
 
 type schema struct {
@@ -40,8 +43,10 @@ func (x *Exec) evalClause(st *State, env *Env, cl *Clause) *Term {
 	}
 	// quantified goal: skolemize with fresh symbolic values
 	e2 := env.child()
+	x.curSkolems = map[string]Value{}
 	for _, v := range cl.vars {
 		e2.vars[v.name] = x.symValue(st, x.resolveType(env.pkg, v.typ), "sk$"+v.name)
+		x.curSkolems[v.name] = e2.vars[v.name]
 	}
 	return x.evalBool(st, e2, cl.expr)
 }
@@ -65,6 +70,9 @@ func (x *Exec) oblige(st *State, name string, goal *Term, what string) {
 	}
 	o := &Obligation{name: full, props: props, contract: ct, goal: goal, what: what, path: x.oblCount[full], inputs: x.curInputs}
 	o.assume = x.assumptions(st)
+	o.apps = st.apps
+	o.entry = x.entryState
+	o.skolems = x.curSkolems
 	x.obls = append(x.obls, o)
 }
 
@@ -404,6 +412,7 @@ func (x *Exec) verifyContract(ct *Contract) (err error) {
 	x.obls = append(x.obls, probe)
 
 	entry := st.fork()
+	x.entryState = entry
 	entryEnv := env
 	var finals []finalState
 	if ct.lemma {
